@@ -154,6 +154,16 @@ def delivery_kwargs(T, d, sc, rnd, port):
     return kw
 
 
+def xml_expressible(T):
+    """RDF/XML writes predicates as element names: the part after the last '/' or '#' must be an XML NCName"""
+    import re
+    for _s, p, _o in T:
+        local = re.split(r"[/#]", p)[-1]
+        if not re.match(r"^[A-Za-z_\u00c0-\uffff][\w.\-\u00b7]*$", local):
+            return False
+    return True
+
+
 def deliveries(rnd, bnodes):
     ds = []
     line_fmts = ["nt", "tsv_spo", "turtle_iter"]
@@ -304,6 +314,9 @@ def check_c08(out, tier):
             base = gen.case("c08g%d" % i, T, **cfg)
             payloads.append({"id": base["id"] + ".ref", "case": base, "kwargs": None})
             for j, d in enumerate(deliveries(rnd, bn)):
+                if d["fmt"] == "xml" and not xml_expressible(T):
+                    out.skip("RDF/XML cannot write a predicate whose local part is not an XML name (format limit, not a channel of this graph)")
+                    continue
                 kw = delivery_kwargs(T, d, sc, rnd, port)
                 if "rdflib_graph" in kw:
                     kw["rdflib_graph"] = M.to_json_graph(T)          # built in the worker (graphs do not pickle cheaply)
@@ -358,7 +371,14 @@ def check_c08(out, tier):
         if any(c.startswith("MACHINERY") for c in v["clauses"]):
             raise common.Machinery("C08 %s: %s" % (t["id"], v["clauses"]))
         if "SKIP.crashed" in v["clauses"]:
-            out.skip("reference run crashed (judged by C04)")
+            ref = by[base["id"] + ".ref"]
+            if ref["status"] != "ok":
+                # this channel delivered the graph and the raw N-Triples string - the reference channel - could not: the two
+                # channels disagree just the same (a reference that fails on every channel is C04's business)
+                out.violation("C08.channel.reference.%s:%s@%s" % (ref["status"], ref["exc"], ref["frame"]), {"delivery": d, "case": base},
+                              "the raw N-Triples string failed where delivery %s succeeded" % d)
+            else:
+                out.skip("reference run crashed (judged by C04)")
             continue
         out.judge_clauses(v["clauses"], {"delivery": d, "case": base}, mine, detail="delivery %s" % d)
         out.sample({"delivery": d, "triples": len(base["graph"]), "read_pass2": len(t["b"]["read2"]), "clauses": v["clauses"]})
